@@ -94,7 +94,7 @@ Payload(p) ==
                                 SPrint(EBin("==", EList(<<Ob>>), EList(<<Ob>>))),
                                 SPrint(EBin("!=", EObj(<<Pair(EStr(KA), Ob)>>), EObj(<<Pair(EStr(KA), Ob)>>)))>>
       \* one name bound twice by one pattern (as an entry and as the rest) is refused
-      [] p = "dupbinding"  -> <<SDecl(Tmp(1), I(0)), SPrint(I(79)),
+      [] p = "dupbinding"  -> <<SDecl(Tmp(1), I(0)), SDecl(Tmp(2), I(0)), SPrint(I(79)),
                                 SAssign(EObj(<<Pair(EStr(KA), Tmp(1)), Pair(EStr(KB), Tmp(2)), PCollect(Tmp(1))>>), Ob), SPrint(Tmp(1))>>
       [] p = "bytelen"     -> <<SPrint(ECall(ETProp(ERIndex(Sv, ENone, I(1)), N_len), <<>>)),
                                 SDecl(Tmp(1), ETProp(ERIndex(Sv, I(1), I(2)), N_len)), SPrint(I(78)), SPrint(ECall(Tmp(1), <<>>))>>
